@@ -122,6 +122,9 @@ def make_data(rng, n, cont, labels="auto"):
     f = rng.normal(0, 1, size=(n, 2)).round(3)
     strings = cont == "DataFrame" and (labels == "str" or (labels == "auto" and rng.random() < 0.5))
     cls = CLASSES_STR if strings else CLASSES_NUM
+    if not strings and labels == "auto" and rng.random() < 0.25:
+        # numeric class codes that are large and close together (year-month codes, ids): classes are equal or different, never "close"
+        cls = [[202301.0, 202302.0, 202303.0], [1.0e9, 1.0e9 + 1, 1.0e9 + 2], [-3.0, 0.0, 1e-9]][int(rng.integers(0, 3))]
     lab = [cls[int(i)] for i in rng.integers(0, 3, size=n)]
     if cont == "ndarray":
         return np.column_stack([f, np.array(lab, dtype=float)]), cls, 2, (0, 1)
